@@ -418,6 +418,19 @@ func (a *Analysis) ruleT3() {
 				r.OK("T3c", "inverse/"+M.Name(), a.P.Pos(builder.Pos()), "", "inverse of the canonical %s list; values in [0,%d)", sp.Name, len(a.G.Lists[list].Elems))
 			}
 		}
+		// the variable is only ever named to load it or to assign it: a pointer to it kept
+		// somewhere (a table of `&fooMapping`) would let it be read without the guard
+		okA := true
+		for _, u := range a.Ef.AddrUse[M] {
+			if a.P.IsTestFunc(u.Parent()) {
+				continue
+			}
+			okA = false
+			r.Bad("T3", "address/"+M.Name(), a.P.InstrPos(u), "", "the address of %s is taken in %s: what is read or written through that pointer is outside the guard discipline (a read through it races with the construction)", M.Name(), fnKey(u.Parent()))
+		}
+		if okA {
+			r.OK("T3", "address/"+M.Name(), pos, "", "%s is only ever loaded or assigned by name", M.Name())
+		}
 		// every load outside the builder is dominated by the guard's Do
 		okL := true
 		nl := 0
